@@ -28,11 +28,19 @@ type Req struct {
 	Limit   int64  `json:"limit"`
 	Forward bool   `json:"forward"`
 	Cluster bool   `json:"cluster,omitempty"`
+	// Consumer shapes the reader of the final channel (QueryRange's JSON writer can be
+	// arbitrarily slow: it writes to the client's socket): 0 = drains as fast as it can;
+	// 1 = waits 3 ms before the first receive, then fast; 2 = holds every batch 300 µs
+	// before reading it; 3 = bursty: every third batch is held 1.5 ms. A held batch is read
+	// only after the pause, so a stage that keeps writing into a batch it has already sent
+	// shows up as a wrong answer (and, under -race, as a data race whatever the timing).
+	Consumer int `json:"consumer,omitempty"`
 }
 
 // Outcome is what the real read path produced for a request.
 type Outcome struct {
 	Entries   []shared.LogEntry // everything the processor chain emitted, in order (EOF markers removed)
+	Batches   int               // slices received from the final channel
 	IsMatrix  bool
 	PlanErr   error             // Transpile / Process refused the query (before or while rendering SQL)
 	StreamErr error             // an entry carried an error (scan failure, failed statement)
@@ -99,7 +107,19 @@ func Run(db *logdb.DB, rq Req) (out Outcome) {
 		out.PlanErr = err
 		return
 	}
+	if rq.Consumer == 1 {
+		time.Sleep(3 * time.Millisecond)
+	}
+	nb := 0
 	for batch := range res {
+		nb++
+		out.Batches++
+		switch {
+		case rq.Consumer == 2:
+			time.Sleep(300 * time.Microsecond)
+		case rq.Consumer == 3 && nb%3 == 0:
+			time.Sleep(1500 * time.Microsecond)
+		}
 		for _, e := range batch {
 			if e.Err == io.EOF {
 				continue
